@@ -62,11 +62,12 @@ Qed.
 
 Section Idle.
 Variable mx : Z.
+Variable kp : Z.
 
 Lemma idle_q tnt x d h t z :
-  J mx tnt x d h t -> TS (po_tasks t) -> In z (all_items (pw_tq x)) -> Sched.mem_nat (Z.to_nat z) (pw_cancel_tasks x) = true.
+  J mx kp tnt x d h t -> TS (po_tasks t) -> In z (all_items (pw_tq x)) -> Sched.mem_nat (Z.to_nat z) (pw_cancel_tasks x) = true.
 Proof.
-  intros HJ HS Hin. pose proof (j_t _ _ _ _ _ _ _ HJ) as HT.
+  intros HJ HS Hin. pose proof (j_t _ _ _ _ _ _ _ _ HJ) as HT.
   destruct (jt_q _ _ _ _ _ _ _ _ HT z Hin) as (i & -> & Hi & Hc & Ha & Hst & Hf & _ & _ & Hc1).
   rewrite Nat2Z.id. apply mem_nat_In. apply (jt_te _ _ _ _ _ _ _ _ HT i Hin).
   - specialize (HS i). unfold task_settled in HS. rewrite Ha, Hf, Hc1 in HS. cbn in HS. rewrite orb_false_r in HS. apply andb_true_iff in HS. apply HS.
@@ -75,10 +76,10 @@ Proof.
 Qed.
 
 Lemma idle_w tnt x d h t w k :
-  J mx tnt x d h t -> TS (po_tasks t) -> TK (po_tasks t) ->
+  J mx kp tnt x d h t -> TS (po_tasks t) -> TK (po_tasks t) ->
   get_worker x w = Some k -> live k = true -> ~ In w (pw_cancel_cos x) -> k_task k = None.
 Proof.
-  intros HJ HS HK Hk Hl Hncc. pose proof (j_t _ _ _ _ _ _ _ HJ) as HT. unfold get_worker in Hk.
+  intros HJ HS HK Hk Hl Hncc. pose proof (j_t _ _ _ _ _ _ _ _ HJ) as HT. unfold get_worker in Hk.
   destruct (k_task k) as [[i rest]|] eqn:Htask; [exfalso | reflexivity].
   destruct (jt_hold _ _ _ _ _ _ _ _ HT w k i rest Hk Htask) as (Hi & Ha & Hst & _ & Hf & _).
   specialize (HS i). unfold task_settled in HS. rewrite Ha, Hf in HS. cbn in HS.
@@ -87,46 +88,58 @@ Proof.
   - apply Hncc. eapply (jt_cc _ _ _ _ _ _ _ _ HT); eassumption.
 Qed.
 
+(** the stop has begun (for the oracle, hence for the pool): idle workers exit at once *)
+Definition stopc (t : potr) : Prop := pt_stop_called (nth 0 (po_pools t) ptrk0) = true.
+
+Lemma stopc_fold t e : stopc t -> stopc (fold_left pev e t).
+Proof. unfold stopc. rewrite po_pools_fold_pev. auto. Qed.
+
+Lemma stopc_state tnt x d h t : J mx kp tnt x d h t -> stopc t -> p_state (get_pool x 0) <> PRunning.
+Proof. intros HJ Hs. apply (js_called _ _ _ _ _ (j_s _ _ _ _ _ _ _ _ HJ)), Hs. Qed.
+
 (** * the worker loop: only cancelled tasks are popped *)
 Definition WLI (f : nat) : Prop := forall tnt x d w acc t,
-  J mx tnt x d (Some w) t -> quiet_off t -> G mx x (Some w) -> hole_ok x w -> ~ In w (pw_cancel_cos x) -> pw_ts x = [] ->
-  TS (po_tasks t) -> TK (po_tasks t) ->
-  exists x' out, wloop f x w acc = (x', acc, out) /\ pw_clock x' = pw_clock x.
+  J mx kp tnt x d (Some w) t -> quiet_off t -> G mx x (Some w) -> hole_ok x w -> ~ In w (pw_cancel_cos x) -> pw_ts x = [] ->
+  TS (po_tasks t) -> TK (po_tasks t) -> stopc t ->
+  exists x' out, wloop f x w acc = (x', acc, out) /\ pw_clock x' = pw_clock x /\
+    (forall k, get_worker x w = Some k -> (mu x k <= f)%nat -> out = WReturn).
 
 Lemma WLI_0 : WLI 0.
-Proof. intros tnt x d w acc t _ _ _ _ _ _ _ _. exists x, WFuel. split; reflexivity. Qed.
+Proof.
+  intros tnt x d w acc t _ _ _ _ _ _ _ _ _. exists x, WFuel. split; [reflexivity|]. split; [reflexivity|].
+  intros k _ Hm. unfold mu in Hm. lia.
+Qed.
 
 Lemma WLI_S f : WLI f -> WLI (S f).
 Proof.
-  intros HW tnt x d w acc t HJ Hq HG Hh Hncc Hts HS HK.
+  intros HW tnt x d w acc t HJ Hq HG Hh Hncc Hts HS HK Hsc.
   destruct Hh as (k & m & Hk & Hl & Hdead & Htp & Him & Hbody).
-  pose proof (jp_cur _ _ _ (j_p _ _ _ _ _ _ _ HJ)) as Hcur.
-  pose proof (jp_pools _ _ _ (j_p _ _ _ _ _ _ _ HJ)) as Hpools.
+  pose proof (jp_cur _ _ _ _ (j_p _ _ _ _ _ _ _ _ HJ)) as Hcur.
+  pose proof (jp_pools _ _ _ _ (j_p _ _ _ _ _ _ _ _ HJ)) as Hpools.
   pose proof (idle_w tnt x d _ t w k HJ HS HK Hk Hl Hncc) as Htask.
   rewrite Htask in Hbody. subst m.
   rewrite (wloop_S f x w acc k Hk). cbv zeta. rewrite Hcur, ?Htp. rewrite Htask.
   pose proof (imode_MRun _ Him) as Est.
-  pose proof (jq_t _ _ (j_q _ _ _ _ _ _ _ HJ)) as HQt.
+  pose proof (jq_t _ _ (j_q _ _ _ _ _ _ _ _ HJ)) as HQt.
   destruct (lpop (pw_tq x) 0 0) as [q' r] eqn:Epop.
   destruct (Q1_lpop_cases _ _ _ _ HQt Epop) as [HQ' [(tz & -> & Hcnt)|(-> & Hnil & Hnil')]].
   - assert (In tz (all_items (pw_tq x))) as Hin.
     { apply cnt_In. specialize (Hcnt tz). rewrite one_same in Hcnt. lia. }
     pose proof (idle_q tnt x d _ t tz HJ HS Hin) as Em. rewrite Em.
-    destruct (J_pop_cancel mx tnt x d w t k q' tz HJ Hq Hk Hl HQ' Hcnt Em) as (HJ1 & Ecc1 & Ets1 & Hk1 & Etb1).
+    destruct (J_pop_cancel mx kp tnt x d w t k q' tz HJ Hq Hk Hl HQ' Hcnt Em) as (HJ1 & Ecc1 & Ets1 & Hk1 & Etb1).
     cbv zeta in *. set (xg := pop_cancel x 0 q' (Z.to_nat tz)) in *.
     destruct (pop_cancel_post x q' (Z.to_nat tz) Hpools) as (W0 & R0 & N0 & Hu0 & _). fold xg in Hu0.
-    destruct (HW tnt xg d w acc t HJ1 Hq) as (x' & out & Ew & Ec); try assumption.
+    destruct (HW tnt xg d w acc t HJ1 Hq) as (x' & out & Ew & Ec & Hout); try assumption.
     + eapply G_idle; eassumption.
     + eapply hole_ok_intro; [exact Hk1 | exact Hl | exact Hdead | exact Htp | rewrite Est; reflexivity | rewrite Htask; reflexivity].
     + congruence.
     + congruence.
-    + exists x', out. split; [exact Ew|]. rewrite Ec. apply (up_clock _ _ _ _ _ _ _ Hu0).
-  - autorewrite with pw.
-    pose proof (j_p _ _ _ _ _ _ _ HJ) as [P1 P2 P3 P4 P5 P6 P7 P8 P9 P10 P11 P12].
-    pose proof (nlive_pos _ _ _ Hk Hl) as Hpos.
-    assert ((p_keep (get_pool x 0) <=? sat_sub (pw_clock x) (k_create k)) && (p_min (get_pool x 0) <? p_running (get_pool x 0)) = true) as ->.
-    { unfold sat_sub. apply andb_true_iff. split; lia. }
-    cbn [orb]. exists (set_tq x q'), WReturn. split; reflexivity.
+    + exists x', out. split; [exact Ew|]. split; [rewrite Ec; apply (up_clock _ _ _ _ _ _ _ Hu0)|].
+      intros k0 Hk0 Hm. rewrite Hk in Hk0. injection Hk0 as <-. apply (Hout k Hk1). unfold mu in *.
+      rewrite Etb1, (up_tq _ _ _ _ _ _ _ Hu0). rewrite (qsum_pop _ _ _ _ Hcnt) in Hm. lia.
+  - autorewrite with pw. pose proof (stopc_state tnt x d _ t HJ Hsc) as Hst.
+    assert (negb (match p_state (get_pool x 0) with PRunning => true | _ => false end) = true) as -> by (destruct (p_state (get_pool x 0)); [contradiction | reflexivity | reflexivity]).
+    rewrite orb_true_r. exists (set_tq x q'), WReturn. split; [reflexivity|]. split; reflexivity.
 Qed.
 
 Theorem wloop_I : forall f, WLI f.
@@ -134,38 +147,54 @@ Proof. induction f as [|f IH]; [apply WLI_0 | apply WLI_S, IH]. Qed.
 
 (** * a resumption: the worker drains the cancelled tasks and exits *)
 Lemma k_resume_I tnt x d w t :
-  J mx tnt x d (Some w) t -> quiet_off t -> G mx x (Some w) -> parked_ok x w -> ~ In w (pw_cancel_cos x) -> pw_ts x = [] ->
-  TS (po_tasks t) -> TK (po_tasks t) ->
+  J mx kp tnt x d (Some w) t -> quiet_off t -> G mx x (Some w) -> parked_ok x w -> ~ In w (pw_cancel_cos x) -> pw_ts x = [] ->
+  TS (po_tasks t) -> TK (po_tasks t) -> stopc t ->
   exists x' r evs, k_resume x w = (x', r, evs) /\ Forall tinert evs /\ pw_clock x' = pw_clock x.
 Proof.
-  intros HJ Hq HG (k & m & Hk & Hl & Hdead & Htp & Hres & Hpm & Hbody) Hncc Hts HS HK.
-  pose proof (idle_w tnt x d _ t w k HJ HS HK Hk Hl Hncc) as Htask. rewrite Htask in Hbody. destruct Hbody as [-> Est].
+  intros HJ Hq HG (k & m & Hk & Hl & Hdead & Htp & Hres & Hpm & Hbody) Hncc Hts HS HK Hsc.
+  pose proof (idle_w tnt x d _ t w k HJ HS HK Hk Hl Hncc) as Htask. rewrite Htask in Hbody. destruct Hbody as [-> Est'].
+  assert (exists s0, k_st k = s0 /\ (s0 = Ready \/ s0 = Suspend 0 0)) as (s0 & Est & Hs0) by (eexists; split; [reflexivity | exact Est']).
+  assert (tr_running (pw_clock (k_defect x w)) s0 = Some (Some Running)) as Htr.
+  { destruct Hs0 as [->| ->]; [reflexivity|]. cbn [tr_running].
+    destruct (jp_keep _ _ _ _ (j_p _ _ _ _ _ _ _ _ HJ)) as (_ & Hc0 & _).
+    assert (pw_clock (k_defect x w) = pw_clock x) as -> by (unfold k_defect; destruct (Nat.eqb _ _); reflexivity).
+    assert (0 <=? pw_clock x = true) as -> by lia. reflexivity. }
   set (xd := k_defect x w).
-  assert (J mx tnt xd d (Some w) t /\ get_worker xd w = Some k /\ G mx xd (Some w) /\ pw_cancel_cos xd = pw_cancel_cos x /\
+  assert (J mx kp tnt xd d (Some w) t /\ get_worker xd w = Some k /\ G mx xd (Some w) /\ pw_cancel_cos xd = pw_cancel_cos x /\
           pw_ts xd = [] /\ pw_clock xd = pw_clock x) as (HJd & Hkd & HGd & Eccd & Htsd & Ecd).
   { unfold xd, k_defect. destruct (Nat.eqb _ _); [auto 10|].
     split; [apply J_add_defect, HJ|]. split; [exact Hk|]. split; [|auto].
     eapply (G_frame mx x); [reflexivity | reflexivity | reflexivity | exact HG]. }
-  rewrite (k_resume_eq x w k Hkd). cbv zeta. fold xd. rewrite Est. cbn [tr_running].
-  destruct (J_k_change mx tnt xd d w t k Running HJd Hq Hkd Hl ltac:(discriminate))
+  rewrite (k_resume_eq x w k Hkd). cbv zeta. fold xd. rewrite Est. fold xd in Htr.
+  assert (match s0 with Complete r => (xd, ROk (Complete r), []) | Error m0 => (xd, ROk (Error m0), []) | _ =>
+            match tr_running (pw_clock xd) s0 with
+            | None => (xd, RErr, [])
+            | Some chg => let '(x1, ev1) := match chg with Some new => k_change xd w new | None => (xd, []) end in
+                          if k_dead k then (x1, RUnwound, ev1) else let '(x2, ev2, out) := wloop (wfuel x1) x1 w ev1 in k_finish x2 w ev2 out
+            end end =
+          let '(x1, ev1) := k_change xd w Running in
+          if k_dead k then (x1, RUnwound, ev1) else let '(x2, ev2, out) := wloop (wfuel x1) x1 w ev1 in k_finish x2 w ev2 out) as ->.
+  { rewrite Htr. destruct Hs0 as [->| ->]; reflexivity. }
+  destruct (J_k_change mx kp tnt xd d w t k Running HJd Hq Hkd Hl ltac:(discriminate))
     as (x1 & Ekc & HJ1 & Hm1 & Hk1 & _ & HG1b & _).
   rewrite Est in Ekc, HJ1. rewrite Ekc, Hdead. destruct Hm1 as [M1 M2 M3 M4 M5 M6].
-  set (e1 := EL 0 w (CbChanged Running) Ready) in *.
+  set (e1 := EL 0 w (CbChanged Running) s0) in *.
   assert (hole_ok x1 w) as Hh1.
   { eapply hole_ok_intro; [exact Hk1 | reflexivity | exact Hdead | exact Htp | reflexivity|]. cbn [with_st k_task]. rewrite Htask. reflexivity. }
   assert (~ In w (pw_cancel_cos x1)) as Hncc1 by congruence.
   assert (pw_ts x1 = []) as Hts1 by congruence.
   assert (G mx x1 (Some w)) as HG1 by (apply HG1b; auto).
   assert (quiet_off (pev t e1)) as Hq1 by (unfold quiet_off; rewrite po_pools_pev; exact Hq).
-  destruct (wloop_J mx (wfuel x1) tnt x1 d w [e1] (pev t e1) HJ1 Hq1 HG1 Hh1 Hncc1 Hts1)
-    as (x2 & evs & out & Ew & HJ2 & HG2 & Ecc2 & _ & Hc2 & Hpost & Hr2 & Hnf).
-  destruct (wloop_I (wfuel x1) tnt x1 d w [e1] (pev t e1) HJ1 Hq1 HG1 Hh1 Hncc1 Hts1 HS HK) as (x2' & out' & Ew' & Ec2).
+  destruct (wloop_J mx kp (wfuel x1) tnt x1 d w [e1] (pev t e1) HJ1 Hq1 HG1 Hh1 Hncc1 Hts1)
+    as (x2 & evs & out & Ew & HJ2 & HG2 & Ecc2 & _ & Hc2 & Hpost & _).
+  assert (stopc (pev t e1)) as Hsc1 by (unfold stopc; rewrite po_pools_pev; exact Hsc).
+  destruct (wloop_I (wfuel x1) tnt x1 d w [e1] (pev t e1) HJ1 Hq1 HG1 Hh1 Hncc1 Hts1 HS HK Hsc1) as (x2' & out' & Ew' & Ec2 & Hout).
   rewrite Ew in Ew'. injection Ew' as <- Eev <-. subst evs.
   rewrite Ew.
-  pose proof (Hnf _ Hk1 (mu_bound mx tnt x1 d (Some w) _ w _ HJ1 Hk1 eq_refl)) as Hnf'.
-  destruct (k_finish_J mx tnt x x2 d w (fold_left pev [] (pev t e1)) ([e1] ++ []) out HJ2
-              (quiet_off_fold _ _ Hq1) HG2 ltac:(congruence) Hpost Hnf')
-    as (x' & r & evs' & Ef & _ & _ & _ & _ & _ & _ & H7).
+  pose proof (Hout _ Hk1 (mu_bound mx kp tnt x1 d (Some w) _ w _ HJ1 Hk1 eq_refl)) as ->.
+  destruct (k_finish_J mx kp tnt x x2 d w (fold_left pev [] (pev t e1)) ([e1] ++ []) WReturn HJ2
+              (quiet_off_fold _ _ Hq1) HG2 ltac:(congruence) Hpost ltac:(discriminate))
+    as (x' & r & evs' & Ef & _ & _ & _ & _ & _ & _ & H7 & _).
   destruct (k_finish_inert _ _ _ _ _ _ _ Ef) as (e & Ee & Hine). apply app_inv_head in Ee. subst e.
   exists x', r, (([e1] ++ []) ++ evs'). split; [exact Ef|]. split.
   - apply Forall_app. split; [|exact Hine]. constructor; [apply tinert_EL | constructor].
